@@ -44,11 +44,14 @@ Next == UNCHANGED vars
 T == Tuples[ti]
 
 Known == Lookup(T.type).ok
-WG == IF c.kind = "acc" THEN [j |-> "acc", v |-> CanonOf(T), str |-> Render(CanonOf(T))]
+WG0 == IF c.kind = "acc" THEN [j |-> "acc", v |-> CanonOf(T), str |-> Render(CanonOf(T))]
       ELSE IF c.kind = "err" THEN [j |-> "err", err |-> c.err] ELSE [j |-> "rej"]
-WT == IF c.kind = "acc" THEN (IF Known THEN [j |-> "acc", v |-> TypedCanonOf(T, LowerTab), str |-> Render(TypedCanonOf(T, LowerTab))]
+WT0 == IF c.kind = "acc" THEN (IF Known THEN [j |-> "acc", v |-> TypedCanonOf(T, LowerTab), str |-> Render(TypedCanonOf(T, LowerTab))]
                               ELSE [j |-> "err", err |-> "UnsupportedType"])
       ELSE IF c.kind = "err" /\ Known THEN [j |-> "err", err |-> "Parse:" \o c.err] ELSE [j |-> "rej"]
+\* a fault injected into a tuple may bring a second defect with it (no '/' after `maven`: no name and no namespace)
+WG == Demote(WG0, AllDefects(c.s, Generic, LowerTab))
+WT == Demote(WT0, AllDefects(c.s, Typed, LowerTab))
 OutG == ParseF(c.s, Generic, LowerTab)
 OutT == ParseF(c.s, Typed, LowerTab)
 \* the transcribed parser satisfies what the Writer demands
@@ -58,6 +61,10 @@ Compatible(j1, j2) == \/ j1.j = "un" \/ j2.j = "un"
                       \/ (j1.j = "acc" /\ j2.j = "acc" /\ j1.v = j2.v)
                       \/ (j1.j \in {"err", "rej"} /\ j2.j \in {"err", "rej"} /\ (j1.j = "err" /\ j2.j = "err" => j1.err = j2.err))
 OraclesAgree == Compatible(WG, Judge(c.s, Generic, LowerTab)) /\ Compatible(WT, Judge(c.s, Typed, LowerTab))
+\* neither oracle demands an error class where a second defect is present
+JudgeOrderFree == /\ OrderFree(WG0, AllDefects(c.s, Generic, LowerTab)) /\ OrderFree(WT0, AllDefects(c.s, Typed, LowerTab))
+                  /\ OrderFree(JudgeRaw(c.s, Generic, LowerTab), AllDefects(c.s, Generic, LowerTab))
+                  /\ OrderFree(JudgeRaw(c.s, Typed, LowerTab), AllDefects(c.s, Typed, LowerTab))
 C01_RoundTrip == OutG.ok => LET cs == FormatSpec(OutG.v)  r == ParseF(cs, Generic, LowerTab) IN r.ok /\ r.v = OutG.v
 Emit == PrintT(<<"CASE", ToJson([k |-> "parse", s |-> c.s, what |-> c.what, gj |-> WG, go |-> Outcome(OutG), tj |-> WT, to |-> Outcome(OutT)])>>)
 =============================================================================
